@@ -156,7 +156,7 @@ def run_notes(ch):
     count = ch.pick('count', [2, 0, 1, 5])
     pname = ch.pick('probe.name', ['GNU', None, 'CORE', 'a', 'ab', 'abc', 'abcd', 'abcde', 'LINUX\0\0', 'unknown-owner-1234'])
     pkind = ch.pick('probe.descriptor', ['abi_tag', 'raw4', 'raw0', 'raw1', 'raw2', 'raw3', 'raw5', 'raw16', 'raw300', 'abi_tag_max', 'abi_tag_unknown_os', 'build_id20', 'build_id0',
-                                          'build_id1', 'gold', 'props0', 'props1', 'props3', 'props_stack8', 'props_stack4', 'props_odd12', 'props_unknown', 'prpsinfo',
+                                          'build_id1', 'gold', 'props0', 'props1', 'props3', 'props_stack8', 'props_stack4', 'props_odd12', 'props_unknown', 'props_last_empty', 'props_only_empty', 'prpsinfo',
                                           'ntfile0', 'ntfile1', 'ntfile3'])
     ptype_override = ch.pick('probe.n_type', [None, 0, 2, 6, 0x53494749, 0x46494c46, 0x100, 0xffffffff])
     final = ch.pick('final_note', ['as_is', 'header_only', 'name_only', 'desc_unpadded_len'])
@@ -187,7 +187,9 @@ def run_notes(ch):
                  'props3': [(0xc0000002, struct.pack(o + 'I', 3)), (2, b''), (0xc0008002, struct.pack(o + 'I', 0x1f))],
                  'props_stack8': [(1, struct.pack(o + 'Q', 0x100000))], 'props_stack4': [(1, struct.pack(o + 'I', 0x8000))],
                  'props_odd12': [(0xc0000000, struct.pack(o + 'I', 1)), (0x0badf00d, b'\1\2\3\4\5\6\7\x08\x09\x0a\x0b\x0c')],
-                 'props_unknown': [(0x12345678, b'abc'), (0xc0010002, struct.pack(o + 'I', 9))]}[pkind]
+                 'props_unknown': [(0x12345678, b'abc'), (0xc0010002, struct.pack(o + 'I', 9))],
+                 # a record without data is exactly 8 bytes: as the LAST (or only) record it ends exactly at the end of the descriptor
+                 'props_last_empty': [(0xc0000002, struct.pack(o + 'I', 3)), (2, b'')], 'props_only_empty': [(2, b'')]}[pkind]
         desc, ntype = enc_props(f, props), 5
         desc_decoder = ('props', exp_props(f, props))
     elif pkind == 'prpsinfo':
